@@ -61,6 +61,9 @@ pub enum Ev {
     ClientLen(usize),
     /// a control client changes the liveness timeout at run time
     SetTimeout(u64),
+    /// saturating ingress for 2.6 virtual seconds: the sender's listener socket is never empty; the housekeeping
+    /// passes that fall into it must still run (a keepalive on every live link)
+    Flood,
     /// one second of a 3 Mbit/s stream (285 datagrams of 1316 bytes, acknowledged)
     SecHeavy,
     /// thirty client datagrams 10 ms apart (a stream slower than the flush tick, faster than nothing)
@@ -149,6 +152,10 @@ impl LoopModel {
             7 => {
                 events = vec![Ev::SecHeavy, Ev::Fault(1, Mode::DataHole), Ev::Reload("127.0.0.2\n127.0.0.3\n"), Ev::Repair(1), Ev::SecIdle];
             }
+            // saturating ingress
+            8 => {
+                events = vec![Ev::Sec, Ev::SecIdle, Ev::Flood];
+            }
             // a control client that never reads its subscription
             _ => {
                 events.extend([Ev::FrozenSubscriber("stats"), Ev::FrozenSubscriber("priority.window"), Ev::PublishWindow, Ev::Fault(1, Mode::BlackHole), Ev::Repair(1)]);
@@ -157,7 +164,7 @@ impl LoopModel {
         let name = format!(
             "real loop links={n} timeout={timeout} mode={} alphabet={}",
             if classic { "classic" } else { "enhanced" },
-            ["streaming", "faults", "bind-faults", "long-outage", "reloads", "frozen-subscribers", "heavy-stream", "data-hole"][if level >= 6 { level.min(7) as usize } else { level.min(5) as usize }]
+            ["streaming", "faults", "bind-faults", "long-outage", "reloads", "frozen-subscribers", "heavy-stream", "data-hole", "flood"][if level >= 6 { level.min(8) as usize } else { level.min(5) as usize }]
         );
         Self { n, timeout, classic, events, name, single_thread: level == 4 || level == 6 || level == 7, lockstep: false, start_fault: false }
     }
@@ -1045,6 +1052,49 @@ impl<'a> Run<'a> {
                 self.timeout_changed_at = self.now();
                 Ok(())
             }
+            Ev::Flood => {
+                // start right after a pass, so that two housekeeping deadlines fall into the flood
+                let hk = self.next_hk;
+                self.to(hk).await?;
+                let live: Vec<usize> = (0..n).filter(|l| self.links[*l].present && self.links[*l].live_prev && self.links[*l].mode == Mode::Ok).collect();
+                let base = self.next_seq;
+                let o = self.rig.flood(2600, 160, &|k| srt_data(base + k as u32, false, base + k as u32, 188)).await.map_err(|e| Fail::new("MACHINERY", e))?;
+                // the datagrams of the flood are not entered in the ledger one by one: account for them wholesale
+                let total = (2600 / 50) * 24 * 160;
+                for k in 0..total {
+                    let p = srt_data(base + k as u32, false, base + k as u32, 188);
+                    self.sent.insert(p, (self.now(), false));
+                }
+                self.next_seq = base + total as u32;
+                self.acked_up_to = self.next_seq;
+                self.client_known = true;
+                // two housekeeping deadlines passed in virtual time; the loop re-bases its (Delay) interval on the
+                // time the late tick was actually taken, which the driver cannot see: re-synchronise on the next pass
+                let mut ka: Vec<usize> = vec![0; n];
+                // only keepalives sent *during* the flood count (their send time is in the frame): once the flood stops
+                // even a starved housekeeping arm runs
+                let flood_start = self.now() - 2600;
+                for (l, b) in &o.wire {
+                    if *l < n && pkt_type(b) == Some(0x9000) && b.len() >= 10 {
+                        let ts = u64::from_be_bytes(b[2..10].try_into().unwrap());
+                        if ts < T0 + flood_start + 2300 {
+                            ka[*l] += 1;
+                        }
+                    }
+                }
+                if std::env::var("VERIF_TRACE").is_ok() {
+                    eprintln!("TRACE flood: keepalives per link {ka:?}, wire datagrams {}, live {live:?}", o.wire.len());
+                }
+                for l in live {
+                    if ka[l] == 0 {
+                        return Err(Fail::new(
+                            "real:keepalive-gap-over-two-periods",
+                            format!("link {l}: connected and live; during the first 2.3 s of 2.6 s of saturating client traffic (two housekeeping deadlines fall into them) no keepalive was sent on it"),
+                        ));
+                    }
+                }
+                Err(Fail::new("STOP", String::new()))
+            }
             Ev::SecHeavy => {
                 let hk = self.next_hk;
                 let mut k = 0u32;
@@ -1236,7 +1286,10 @@ fn run_path_once(m: &LoopModel, path: &[usize]) -> RunResult {
         } else {
             for (i, e) in path.iter().enumerate() {
                 if let Err(f) = run.event(m.events[*e]).await {
-                    fail = Some((i, f));
+                    // a flood leaves the loop's timers on a grid the driver does not know: the path ends there
+                    if f.key != "STOP" {
+                        fail = Some((i, f));
+                    }
                     break;
                 }
             }
@@ -1543,6 +1596,10 @@ pub fn plans_of(prop: &str, quick: bool) -> Vec<(LoopModel, RealPlan)> {
         "C14" => {
             v.push((LoopModel::new(2, 5000, false, 1), RealPlan::Dev { k: 1, depth: 25, default: 1 }));
             v.push((LoopModel::new(2, 5000, false, 1), RealPlan::Dev { k: 2, depth: if quick { 10 } else { 24 }, default: 1 }));
+            // saturating ingress must not starve the housekeeping arm
+            if !quick {
+                v.push((LoopModel::new(2, 5000, false, 8), RealPlan::Full { depth: 2 }));
+            }
             // a control client that never reads must not cost a single keepalive
             v.push((LoopModel::new(2, 5000, false, 5), RealPlan::Dev { k: 2, depth: if quick { 8 } else { 16 }, default: 0 }));
             if !quick {
